@@ -67,7 +67,7 @@ Section Ctx.
   Let delim := pc_nsdelim cfg.
   Let po := pc_opts cfg.
 
-  Local Notation cfill := (cs_fill cfg root).
+  Local Notation cfill p := (cs_fill cfg root p false).
   Local Notation cwalk := (comp_walk cfg root).
   Local Notation pstep := (step cfg orc root help_text).
   Local Notation ploop := (run_loop cfg orc root help_text).
@@ -88,7 +88,7 @@ Section Ctx.
   Lemma run_loop_done : forall f s r, ps_args s = [] -> ploop (S f) s r = Ok (s, r).
   Proof. intros f s r H. cbn [run_loop]. rewrite H. reflexivity. Qed.
 
-  Lemma comp_walk_last : forall f a s opt, cwalk f [a] s opt = (s, opt, [a]).
+  Lemma comp_walk_last : forall f a s opt, cwalk f [a] s opt = (s, opt, [a], false).
   Proof. intros [|f] a s opt; reflexivity. Qed.
 
   (* a word that is neither "--" (under PassDoubleDash) nor an option token, with no
@@ -97,21 +97,47 @@ Section Ctx.
     po_passdd po && str_eqb a (s2l "--") = false ->
     argument_is_option a = false ->
     cs_pos s = [] ->
+    cs_ret s = false ->
     find_last (lk_cmds (cs_lk s)) a = Some i ->
     cwalk (S f) (a :: b :: rest) s opt = cwalk f (b :: rest) (cfill (cs_cmd s ++ [i])) None.
   Proof.
-    intros f a b rest s opt i Hdd Hno Hpos Hfind. cbn [comp_walk].
-    fold po. rewrite Hdd, Hno, Hpos, Hfind. reflexivity.
+    intros f a b rest s opt i Hdd Hno Hpos Hret Hfind. cbn [comp_walk].
+    fold po. rewrite Hdd, Hno, Hpos, Hfind, Hret. reflexivity.
   Qed.
 
-  (* an option token with an inline argument is skipped, whatever it names *)
+  (* an option token with an inline argument is skipped when it names a known option
+     (the walk now looks the name up), or whatever it names when IgnoreUnknown is off;
+     an unknown one under IgnoreUnknown is a plain argument: see comp_walk_unknown *)
   Lemma comp_walk_inline : forall f a b rest s opt il n V,
     argument_is_option a = true ->
     split_option a = (il, n, Some V) ->
+    po_ignore po = false \/
+    fst (if il then (find_last (lk_long (cs_lk s)) n, true)
+         else comp_short_walk (cs_lk s) (length n) (range_str n) None true) <> None ->
     cwalk (S f) (a :: b :: rest) s opt = cwalk f (b :: rest) s opt.
   Proof.
-    intros f a b rest s opt il n V Hopt Hsplit. cbn [comp_walk].
-    rewrite (option_not_ddash a Hopt), andb_false_r, Hopt, Hsplit. reflexivity.
+    intros f a b rest s opt il n V Hopt Hsplit Hk. cbn [comp_walk].
+    rewrite (option_not_ddash a Hopt), andb_false_r, Hopt, Hsplit. fold po.
+    destruct (if il then (find_last (lk_long (cs_lk s)) n, true)
+              else comp_short_walk (cs_lk s) (length n) (range_str n) None true) as [o canarg].
+    cbn [fst] in Hk. destruct o as [oc|]; [reflexivity|].
+    destruct Hk as [Hk|Hk]; [rewrite Hk; reflexivity|congruence].
+  Qed.
+
+  (* an unknown option token under IgnoreUnknown is passed through as a plain argument *)
+  Lemma comp_walk_unknown : forall f a b rest s opt il n arg,
+    argument_is_option a = true ->
+    split_option a = (il, n, arg) ->
+    po_ignore po = true ->
+    fst (if il then (find_last (lk_long (cs_lk s)) n, true)
+         else comp_short_walk (cs_lk s) (length n) (range_str n) None true) = None ->
+    cwalk (S f) (a :: b :: rest) s opt = cwalk f (b :: rest) (cs_plain s) None.
+  Proof.
+    intros f a b rest s opt il n arg Hopt Hsplit Hign Hk. cbn [comp_walk].
+    rewrite (option_not_ddash a Hopt), andb_false_r, Hopt, Hsplit. fold po.
+    destruct (if il then (find_last (lk_long (cs_lk s)) n, true)
+              else comp_short_walk (cs_lk s) (length n) (range_str n) None true) as [o canarg].
+    cbn [fst] in Hk. subst o. rewrite Hign. reflexivity.
   Qed.
 
   (* a known long option that takes no argument is skipped *)
@@ -144,7 +170,7 @@ Section Ctx.
     split_option a = (true, n, None) ->
     find_last (lk_long (cs_lk s)) n = Some oc ->
     can_argument (oc_opt oc) = true -> o_optional (oc_opt oc) = false ->
-    cwalk (S f) [a; v] s opt = (s, Some oc, [v]).
+    cwalk (S f) [a; v] s opt = (s, Some oc, [v], false).
   Proof.
     intros f a v s opt n oc Hopt Hsplit Hfind Hcan Hoptl. cbn [comp_walk].
     rewrite (option_not_ddash a Hopt), andb_false_r, Hopt, Hsplit, Hfind, Hcan, Hoptl.
@@ -303,7 +329,7 @@ Section Ctx.
   (* the completion walk: command words move the context, options are skipped *)
   Lemma comp_walk_ctx_run : forall path r ws path' r', ctx_run path r ws path' r' ->
     forall f lastw, (length ws <= f)%nat ->
-    cwalk f (ws ++ [lastw]) (cfill path) None = (cfill path', None, [lastw]).
+    cwalk f (ws ++ [lastw]) (cfill path) None = (cfill path', None, [lastw], false).
   Proof.
     induction 1 as [path r
                    |path r w ws i path' r' Hdd Hno Hp Hfind _ IH
@@ -322,7 +348,8 @@ Section Ctx.
       rewrite <- E. apply IH. lia.
     - destruct f as [|f]; [cbn [length] in Hf; lia|]. cbn [length] in Hf.
       rewrite (cons_snoc _ ws lastw). destruct (snoc_is_cons ws lastw) as (b & t & E). rewrite E.
-      rewrite (comp_walk_inline f _ b t (cfill path) None true n V Hopt (split_long_eq n V H61)).
+      rewrite (comp_walk_inline f _ b t (cfill path) None true n V Hopt (split_long_eq n V H61))
+        by (right; cbn [fst cs_lk cs_fill]; fold delim; rewrite Hfind; discriminate).
       rewrite <- E. apply IH. lia.
   Qed.
 
@@ -372,7 +399,7 @@ Section Ctx.
     (length ws <= fc)%nat -> (length ws < fp)%nat ->
     ps_args s = ws -> in_ctx s path ->
     exists sp,
-      cwalk fc (ws ++ [lastw]) (cfill path) None = (cfill path', None, [lastw]) /\
+      cwalk fc (ws ++ [lastw]) (cfill path) None = (cfill path', None, [lastw], false) /\
       ploop fp s r = Ok (sp, r') /\
       ps_cmd sp = path' /\ ps_lk sp = make_lookup delim root path' /\
       ps_pos sp = pos_at root path' /\ ps_ret sp = [] /\
@@ -394,7 +421,7 @@ Section Ctx.
     ctx_run [] r ws path' r' ->
     (length ws <= fc)%nat -> (length ws < fp)%nat ->
     exists sp,
-      cwalk fc (ws ++ [lastw]) (cfill []) None = (cfill path', None, [lastw]) /\
+      cwalk fc (ws ++ [lastw]) (cfill []) None = (cfill path', None, [lastw], false) /\
       ploop fp (initial_pst cfg root ws) r = Ok (sp, r') /\
       ps_cmd sp = path' /\ ps_lk sp = make_lookup delim root path' /\
       ps_pos sp = pos_at root path' /\ ps_ret sp = [] /\
@@ -414,7 +441,7 @@ Section Ctx.
     forall (ws : list str) (path' : list nat) (lastw : str) (r r' : rt),
     ctx_run [] r ws path' r' ->
     exists sp,
-      cwalk (S (length (ws ++ [lastw]))) (ws ++ [lastw]) (cfill []) None = (cfill path', None, [lastw]) /\
+      cwalk (S (length (ws ++ [lastw]))) (ws ++ [lastw]) (cfill []) None = (cfill path', None, [lastw], false) /\
       ploop (S (length ws)) (initial_pst cfg root ws) r = Ok (sp, r') /\
       cs_cmd (cfill path') = ps_cmd sp /\ cs_lk (cfill path') = ps_lk sp /\
       cs_pos (cfill path') = ps_pos sp /\ ps_ret sp = [] /\ ps_err sp = None.
@@ -454,7 +481,8 @@ Section Ctx.
         * apply (step_long_flag sp r n (b :: rest) oc r1 Hargs Hopt H61); [rewrite Hlk|..]; assumption.
         * repeat split.
     - split.
-      + exact (comp_walk_inline f _ b rest sc opt true n V Hopt (split_long_eq n V H61)).
+      + apply (comp_walk_inline f _ b rest sc opt true n V Hopt (split_long_eq n V H61)).
+        right. cbn [fst]. rewrite Hfind. discriminate.
       + eexists. split.
         * apply (step_long_inline sp r n V (b :: rest) oc v' r1 Hargs Hopt H61); [rewrite Hlk|..]; assumption.
         * repeat split.
@@ -510,7 +538,7 @@ Section Ctx.
     (length ws <= fc)%nat -> (length ws < fp)%nat ->
     ps_args s = ws -> in_ctx s path ->
     exists sp r',
-      cwalk fc (ws ++ [lastw]) (cfill path) None = (cfill (path ++ idx), None, [lastw]) /\
+      cwalk fc (ws ++ [lastw]) (cfill path) None = (cfill (path ++ idx), None, [lastw], false) /\
       ploop fp s r = Ok (sp, r') /\
       ps_cmd sp = path ++ idx /\ ps_lk sp = make_lookup delim root (path ++ idx) /\
       ps_pos sp = pos_at root (path ++ idx) /\ ps_ret sp = [] /\
@@ -533,7 +561,7 @@ Section Ctx.
     cmd_words [] ws idx ->
     (length ws <= fc)%nat -> (length ws < fp)%nat ->
     exists sp r',
-      cwalk fc (ws ++ [lastw]) (cfill []) None = (cfill idx, None, [lastw]) /\
+      cwalk fc (ws ++ [lastw]) (cfill []) None = (cfill idx, None, [lastw], false) /\
       ploop fp (initial_pst cfg root ws) r = Ok (sp, r') /\
       ps_cmd sp = idx /\ ps_lk sp = make_lookup delim root idx /\
       ps_pos sp = pos_at root idx /\ ps_ret sp = [] /\
@@ -555,7 +583,7 @@ Section Ctx.
     cmd_words [] ws idx -> pos_at root idx = [] ->
     (length ws <= fc)%nat -> (length ws < fp)%nat ->
     exists sc sp r',
-      cwalk fc (ws ++ [lastw]) (cfill []) None = (sc, None, [lastw]) /\
+      cwalk fc (ws ++ [lastw]) (cfill []) None = (sc, None, [lastw], false) /\
       ploop fp (initial_pst cfg root ws) r = Ok (sp, r') /\
       cs_cmd sc = idx /\ cs_lk sc = make_lookup delim root idx /\ cs_pos sc = [] /\
       ps_cmd sp = idx /\ ps_lk sp = make_lookup delim root idx /\ ps_pos sp = [] /\
@@ -579,7 +607,7 @@ Section Ctx.
     (* the walk pops the value word and continues in the same state ... *)
     (forall x rest', cwalk (S f) ((s2l "--" ++ n) :: v :: x :: rest') sc opt = cwalk f (x :: rest') sc opt) /\
     (* ... unless the value is the word being completed *)
-    cwalk (S f) [s2l "--" ++ n; v] sc opt = (sc, Some oc, [v]) /\
+    cwalk (S f) [s2l "--" ++ n; v] sc opt = (sc, Some oc, [v], false) /\
     (* parseOption pops the same word when it is acceptable as a value *)
     (forall (sp : pst) (r r1 : rt) (rest' : list str) (v' : str),
        ps_lk sp = cs_lk sc -> ps_args sp = (s2l "--" ++ n) :: v :: rest' ->
@@ -764,8 +792,8 @@ Qed.
    where the positional NAME is pending (ps_pos is NOT empty there) *)
 Example cx_commands_only_observed :
   let ws := [s2l "remote"; s2l "add"] in
-  fst (fst (comp_walk cx_cfg cx_root 2 (ws ++ [s2l "x"]) (cs_fill cx_cfg cx_root []) None))
-    = cs_fill cx_cfg cx_root [0%nat; 0%nat] /\
+  fst (fst (fst (comp_walk cx_cfg cx_root 2 (ws ++ [s2l "x"]) (cs_fill cx_cfg cx_root [] false) None)))
+    = cs_fill cx_cfg cx_root [0%nat; 0%nat] false /\
   match run_loop cx_cfg cx_orc cx_root cx_help 3 (initial_pst cx_cfg cx_root ws) cx_r0 with
   | Ok (sp, r') => ps_cmd sp = [0%nat; 0%nat] /\ ps_pos sp = [cx_arg 5 (s2l "NAME")] /\ ps_ret sp = [] /\
                    ps_err sp = None /\ rt_active r' = [([0%nat], 0%nat); ([], 0%nat)]
@@ -793,8 +821,8 @@ Proof.
 Qed.
 
 Example cx_with_flags_observed :
-  fst (fst (comp_walk cx_cfg cx_root 5 (cx_words ++ [s2l "x"]) (cs_fill cx_cfg cx_root []) None))
-    = cs_fill cx_cfg cx_root [0%nat; 0%nat] /\
+  fst (fst (fst (comp_walk cx_cfg cx_root 5 (cx_words ++ [s2l "x"]) (cs_fill cx_cfg cx_root [] false) None)))
+    = cs_fill cx_cfg cx_root [0%nat; 0%nat] false /\
   match run_loop cx_cfg cx_orc cx_root cx_help 6 (initial_pst cx_cfg cx_root cx_words) cx_r0 with
   | Ok (sp, r') => ps_cmd sp = [0%nat; 0%nat] /\ ps_ret sp = [] /\ ps_err sp = None /\
                    rt_vals r' 1%nat = VBool true /\ rt_vals r' 2%nat = VStr (s2l "alpha") /\
@@ -816,7 +844,7 @@ Qed.
 (* target 3: --color VALUE *)
 Example cx_separate_hyps :
   exists oc, argument_is_option (s2l "--" ++ s2l "color") = true /\ ~ In 61 (s2l "color") /\
-             find_last (lk_long (cs_lk (cs_fill cx_cfg cx_root []))) (s2l "color") = Some oc /\
+             find_last (lk_long (cs_lk (cs_fill cx_cfg cx_root [] false))) (s2l "color") = Some oc /\
              can_argument (oc_opt oc) = true /\ o_optional (oc_opt oc) = false /\
              is_valid_value (oc_opt oc) (s2l "alpha") = true /\
              arg_text (oc_opt oc) (s2l "alpha") = Some (s2l "alpha") /\
@@ -828,9 +856,9 @@ Proof.
 Qed.
 
 Example cx_separate_observed :
-  comp_walk cx_cfg cx_root 3 [s2l "--color"; s2l "alpha"; s2l "remote"; s2l "x"] (cs_fill cx_cfg cx_root []) None
-    = (cs_fill cx_cfg cx_root [0%nat], None, [s2l "x"]) /\
-  snd (fst (comp_walk cx_cfg cx_root 3 [s2l "--color"; s2l "al"] (cs_fill cx_cfg cx_root []) None))
+  comp_walk cx_cfg cx_root 3 [s2l "--color"; s2l "alpha"; s2l "remote"; s2l "x"] (cs_fill cx_cfg cx_root [] false) None
+    = (cs_fill cx_cfg cx_root [0%nat] false, None, [s2l "x"], false) /\
+  snd (fst (fst (comp_walk cx_cfg cx_root 3 [s2l "--color"; s2l "al"] (cs_fill cx_cfg cx_root [] false) None)))
     = find_last (lk_long (make_lookup (s2l ".") cx_root [])) (s2l "color") /\
   complete cx_cfg cx_root [s2l "--color"; s2l "al"] =
     [(s2l "alpha", s2l "desc alpha"); (s2l "alpine", s2l "desc alpine")].
@@ -839,8 +867,8 @@ Proof. vm_compute. repeat split. Qed.
 (* the validity hypothesis in the parser part of target 3 cannot be dropped: the
    completion walk pops ANY word after --color, the parser rejects an option-like one *)
 Example cx_separate_invalid_value_diverges :
-  comp_walk cx_cfg cx_root 3 [s2l "--color"; s2l "--verbose"; s2l "remote"; s2l "x"] (cs_fill cx_cfg cx_root []) None
-    = (cs_fill cx_cfg cx_root [0%nat], None, [s2l "x"]) /\
+  comp_walk cx_cfg cx_root 3 [s2l "--color"; s2l "--verbose"; s2l "remote"; s2l "x"] (cs_fill cx_cfg cx_root [] false) None
+    = (cs_fill cx_cfg cx_root [0%nat] false, None, [s2l "x"], false) /\
   match run_loop cx_cfg cx_orc cx_root cx_help 4
                  (initial_pst cx_cfg cx_root [s2l "--color"; s2l "--verbose"; s2l "remote"]) cx_r0 with
   | Ok (sp, _) => ps_cmd sp = [] /\
